@@ -1,5 +1,6 @@
 import LhasaV.Lemmas.ReaderLedger
 import LhasaV.Props.C17
+import LhasaV.Lemmas.CrcBurst
 /-!
 # C07 — a member is reported good only if its bytes match the recorded length and CRC-16
 -/
@@ -46,5 +47,25 @@ theorem truncation_bad {s : St} {c : HObj} {d : Dec} {info : Nat × Nat × Nat}
 theorem check_dir {s : St} {c : HObj} (ht : s.currType = .normal) (hc : s.curr = some c)
     (hm : c.h.method = "-lhd-".toUTF8.toList) : check s = ((true, []), s) :=
   Reader.check_dir ht hc hm
+
+/-- **Burst errors.** For EVERY start value, every byte string and every non-zero error pattern of the
+same length whose set bits span at most 16 consecutive bit positions (in the order the CRC consumes
+them), the checksum of the damaged data differs from the checksum of the original: stored data
+damaged by such a burst can never be reported good. (16 is optimal: the 17-bit pattern 03 40 01
+spells the generator polynomial.) -/
+theorem crc16_burst (c : BitVec 16) (data e : List UInt8) (hlen : e.length = data.length)
+    (hb : CrcBurst.IsBurst16 e) : Crc.buf c (CrcBurst.xorBytes data e) ≠ Crc.buf c data :=
+  CrcBurst.crc16_burst c data e hlen hb
+
+/-- the checksum is GF(2)-linear in the data: the effect of an error pattern does not depend on the data -/
+theorem crc_linear (c : BitVec 16) (a e : List UInt8) (hlen : e.length = a.length) :
+    Crc.buf c (CrcBurst.xorBytes a e) = Crc.buf c a ^^^ Crc.buf 0 e :=
+  CrcBurst.crc_buf_xor c a e hlen
+
+/-- a single flipped bit is always detected -/
+theorem single_bit_detected (c : BitVec 16) (data e : List UInt8) (hlen : e.length = data.length) (p : Nat)
+    (hp : CrcBurst.bitAt e p = true) (honly : ∀ i, CrcBurst.bitAt e i = true → i = p) :
+    Crc.buf c (CrcBurst.xorBytes data e) ≠ Crc.buf c data :=
+  CrcBurst.single_bit_detected c data e hlen p hp honly
 
 end LhasaV.Props.C07
